@@ -55,8 +55,14 @@ def seeded():
                 v = r["violations"][0] if r["violations"] else ""
                 how.append(f"{c}: " + ("broken obligation / tie (no-failing-input-found)" if "no-failing-input-found" in v else "failing input replayed"))
         missed = [c for c, r in m.get("checks", {}).items() if r["exit"] == 0]
+        how = []
+        for c, r in m.get("checks", {}).items():
+            if r["exit"] != 0:
+                wit = any("no-failing-input-found" not in v for v in r["violations"])
+                how.append(f"{c}: " + ("failing input replayed" if wit else "broken obligation / tie (no-failing-input-found)"))
+        note = " — OBSOLETE: harmless on the current tree (demo passes)" if m.get("obsolete") else ""
         out.append(f"| `{name}` | {m['property']} | {m.get('demo_on_original')} / {m.get('demo_with_patch')} | {m.get('suite_with_patch', '')[:24]} | "
-                   f"{', '.join(m.get('caught_by', [])) or '**none**'} | {'; '.join(how)}" + (f" (also run, silent: {', '.join(missed)})" if missed else "") + " |")
+                   f"{', '.join(m.get('caught_by', [])) or '**none**'} | {'; '.join(how)}" + (f" (also run, silent: {', '.join(missed)})" if missed else "") + note + " |")
     return "\n".join(out)
 
 
